@@ -16,7 +16,9 @@ func VP_C11_counter() {
 	intp.Stack = append(intp.Stack, vpObj(intp, "a0", 1, 2), vpObj(intp, "a1", 1, 2))
 	pre := append([]Object{}, intp.Stack...)
 	var obj Object
-	switch vpChoose("obj", 4) {
+	switch vpChoose("obj", 5) {
+	case 4:
+		obj = Procedure{}
 	case 0:
 		obj = Integer(5)
 	case 1:
@@ -116,7 +118,13 @@ func VP_C11_limits() {
 	vpUnwind(700)
 	vpStepLimit(4000000)
 	intp := NewInterpreter()
-	switch vpChoose("which", 5) {
+	switch vpChoose("which", 6) {
+	case 5: // loops with empty bodies are cut by the budget
+		intp.MaxOps = 30
+		text := []string{"{ } loop", "100000 { } repeat", "0 0 1 { pop } for", "/e { } def { e } loop"}[vpChoose("emptyloop", 4)]
+		err := intp.ExecuteString(text)
+		vpAssert("empty-body-loop-cut-by-budget", err == ErrExecutionLimitExceeded && intp.NumOps == 31)
+		vpCover("empty-loop")
 	case 0: // a loop that pushes for ever is cut by stackoverflow
 		err := intp.ExecuteString("{ 1 } loop")
 		pe, ok := err.(*postScriptError)
